@@ -29,6 +29,12 @@ Seeded changes /verif/seeded/C20-{1,2,3} (all exit 1):
   C20-3 areSVCBPairArraysEqual sorts b with a's comparator          GEN isduplicate/false-negative:svcb|https:...:second-unsorted (pairs with
                                                                     reversed parameter order, Copy of an unsorted record); TV isduplicate/asymmetric:https
 
+  C20-5 Dedup's second pass keeps r when m[key] == r              GEN dedup/count:same-value-repeated:<type> (every list is also instantiated with
+                                                                    repeated symbols being THE SAME Go value, all or some); TV dedup/trace:<type>
+  C20-6 APLPrefix.equals compares Network.String()                  TV isduplicate/false-positive:apl:address-4-as-mapped-v6:* (`dup sweep`: every
+                                                                    address cell respelled 4 octets / 16 octets IPv4-mapped / mapped with family,
+                                                                    prefix+96 or gateway type following; verdict on the packed octets)
+
 Mutants (checks/mutants/C20), all exit 1 (stage = where the evidence shows the discrepancy):
   mx-preference-omitted.diff     one field dropped from a generated isDuplicate   GEN isduplicate/false-positive:mx:value:preference ; TV (pairs, sweep one-octet)
   soa-mbox-case-sensitive.diff   a name compared with !=                          GEN isduplicate/false-negative:soa:name-case:mbox ; TV not within 6 000 random events
